@@ -404,6 +404,15 @@ def plan(ctx):
   # clip 0.0 / 0: a legal bound (every aggregated update is the zero vector), falsy in Python
   ctx.pmap('mimelite', [{'clip': c, 'base': b, 'depth': d, 'seed': s} for c in (0.125, 1.0, 1e6) for b in ('sgd', 'mom')] +
            [{'clip': c, 'base': 'sgd', 'depth': min(d, 2), 'seed': s} for c in (0.0, 0)], chunk=1)
+  # long single histories (12 rounds)
+  ctx.pmap('agnostic', [{'domains': 2, 'window': 2, 'dlr': 0.125, 'depth': 12, 'seed': s,
+                         'history': ['d0+d1', 'mix', 'd0', 'd1', 'mix', 'd0+d1', 'd0+empty', 'd1', 'mix', 'd0', 'd1', 'd0+d1']}], chunk=1)
+  ctx.pmap('apfl', [{'lr': 0.125, 'coef': 0.5, 'depth': 12, 'seed': s,
+                     'history': ['AB', 'A', 'B', 'AB', 'A', 'A', 'B', 'AB', 'B', 'A', 'AB', 'B']}], chunk=1)
+  ctx.pmap('hyp', [{'clusters': 3, 'sopt': 'mom', 'depth': 12, 'seed': s,
+                    'history': ['AB', 'A', 'BA', 'ABD', 'B', 'A2', 'AB', 'DBA', 'A', 'A2B', 'AB', 'B']}], chunk=1)
+  ctx.pmap('mimelite', [{'clip': 0.125, 'base': 'mom', 'depth': 12, 'seed': s,
+                         'history': ['AB', 'A', 'B', 'AC', 'D', 'AB', 'A', 'D', 'B', 'AB', 'AC', 'AH']}], chunk=1)
   ig = [{'base': b, 'ignored': [list(x) for x in sub]} for b in ('sgd', 'mom', 'adam', 'clipmom') for r in range(0, 5)
         for sub in itertools.combinations(NAMES, r)]
   ctx.pmap('ignore_grads', ig, chunk=12)
